@@ -138,15 +138,26 @@ func searchIndex(p *binary.BinaryProtocol, idx int, elementWireType proto.WireTy
 			}
 			cnt++
 		}
+		if p.Read >= start+length {
+			// the cursor is at the end of the list: there is no element number idx (idx == element count included)
+			return p.Read, errNotFound
+		}
 		result = p.Read
 	} else {
 		// normal Type : [tag][(length)][value][tag][(length)][value][tag][(length)][value]....
+		// the caller has consumed the tag of element 0: p.Read is at its value
+		more := true // is there an element number cnt at the cursor?
+		if idx == 0 {
+			// found: hand the cursor back at the element's tag, like for every other index
+			p.Read -= protowire.SizeVarint(uint64(fieldNumber)<<3 | uint64(elementWireType&7))
+		}
 		for p.Read < len(p.Buf) && cnt < idx {
 			// don't move p.Read and judge whether readList completely
 			if err := p.Skip(elementWireType, false); err != nil {
 				return 0, errNode(meta.ErrRead, "searchIndex: skip unpacked list element error.", err)
 			}
 			cnt++
+			more = false
 			if p.Read < len(p.Buf) {
 				// don't move p.Read and judge whether readList completely
 				elementFieldNumber, _, n, err := p.ConsumeTagWithoutMove()
@@ -156,13 +167,17 @@ func searchIndex(p *binary.BinaryProtocol, idx int, elementWireType proto.WireTy
 				if elementFieldNumber != fieldNumber {
 					break
 				}
+				more = true
 				if cnt < idx {
 					p.Read += n
 				}
 				result = p.Read + n
 			}
 		}
-
+		if !more {
+			// the list ended exactly before element number idx (idx == element count)
+			return p.Read, errNotFound
+		}
 	}
 
 	if cnt < idx {
